@@ -226,7 +226,7 @@ Section OverFile.
       (p = file_of (firstn k rs0) -> d = []) /\
       fst (crun (tinit S0, p) sched) = trun (tinit S0) sched /\
       forall c, In c (t_cons (trun (tinit S0) sched)) -> c_fin c = true ->
-        exists tail, c_out c = rev tail ++ d ++ rev (firstn k (map snd rs0)).
+        exists tail, c_start c = S0 ++ tail /\ c_out c = rev tail ++ d ++ rev (firstn k (map snd rs0)).
   Proof.
     intros Hv E Hlv S0 Hok Hnes.
     destruct (torn rs0 p sfx Hv E) as (k & d & Hc & Hd & Hl & Hz).
@@ -237,7 +237,7 @@ Section OverFile.
     destruct (threaded_exactly_once S0 sched c Hok Hin) as (Hout & _).
     destruct (store_grows S0 sched (tinit S0)) as [_ Hpre]; [apply pre_refl|constructor|].
     rewrite Forall_forall in Hpre. destruct (Hpre c Hin) as [tail Ht].
-    exists tail. rewrite (Hout Hfin), Ht, rev_app_distr. unfold S0. rewrite rev_involutive, Hl.
-    reflexivity.
+    exists tail. split; [exact Ht|]. rewrite (Hout Hfin), Ht, rev_app_distr. unfold S0.
+    rewrite rev_involutive, Hl. reflexivity.
   Qed.
 End OverFile.
